@@ -1,12 +1,14 @@
 #!/venv/bin/python
-"""usage: confirm_seeded.py <prop>   Confirms every mutant delivered in /tmp/wt/<prop>.out in the scratch worktree
+"""usage: confirm_seeded.py <prop> [base=/tmp/wt] [tag]   (round 2: base /tmp/wt2, tag r2 -> seeded/<prop>-r2-<k>)   Confirms every mutant delivered in /tmp/wt/<prop>.out in the scratch worktree
 /tmp/wt/<prop>: demo passes on the unchanged tree, fails with the patch, the unedited suite passes with the patch; then
 records what the static check says. Confirmed mutants are stored as /verif/seeded/<prop>-<k>/{patch.diff,demo.py,meta.json}."""
 import glob, json, os, re, shutil, subprocess, sys
 sys.path.insert(0, '/verif')
 prop = sys.argv[1]
-out = f'/tmp/wt/{prop}.out'
-wt = f'/tmp/wt/{prop}'
+base = sys.argv[2] if len(sys.argv) > 2 else '/tmp/wt'
+tag = (sys.argv[3] + '-') if len(sys.argv) > 3 else ''
+out = f'{base}/{prop}.out'
+wt = f'{base}/{prop}'
 env = dict(os.environ, PYTHONPATH=wt)
 PY = '/venv/bin/python'
 
@@ -59,7 +61,7 @@ for pf in sorted(glob.glob(f'{out}/patch*.diff')):
     res['confirmed'] = bool(ok)
     print(json.dumps(res, indent=1))
     if ok:
-        d = f'/verif/seeded/{prop}-{k}'
+        d = f'/verif/seeded/{prop}-{tag}{k}'
         os.makedirs(d, exist_ok=True)
         shutil.copy(pf, f'{d}/patch.diff')
         shutil.copy(demo, f'{d}/demo.py')
